@@ -36,10 +36,17 @@ def Entry.expired (e : Entry) (now : Nat) : Bool :=
 def Entry.renew (e : Entry) (now : Nat) : Entry :=
   if e.lease ≠ 0 then { e with expiration := some (now + e.lease) } else e
 
-/-- the command-map key exactly as `fmt.Sprintf` builds it -/
+/-- `escapeKeyPart`: a comma or a backslash inside a part of the command-map key is escaped with a
+    backslash (fix D17), so the commas that separate the parts are the only unescaped ones -/
+def esc1 (c : Char) : Str := if c = ',' then ['\\', ','] else if c = '\\' then ['\\', '\\'] else [c]
+def esc : Str → Str
+  | [] => []
+  | c :: t => esc1 c ++ esc t
+
+/-- the command-map key `{tag,addr,<cmd>}` / `{addr,<cmd>}` as `commandKey` builds it -/
 def cmdKey (tag addr cmd : Str) : Str :=
-  if tag ≠ [] then '{' :: (tag ++ ',' :: (addr ++ ',' :: '<' :: (cmd ++ ['>', '}'])))
-  else '{' :: (addr ++ ',' :: '<' :: (cmd ++ ['>', '}']))
+  if tag ≠ [] then '{' :: (esc tag ++ ',' :: (esc addr ++ ',' :: '<' :: (esc cmd ++ ['>', '}'])))
+  else '{' :: (esc addr ++ ',' :: '<' :: (esc cmd ++ ['>', '}']))
 
 structure Cache where
   sessions : List (Str × Entry) := []     -- association list, newest binding first
